@@ -26,6 +26,14 @@ def run(ctx):
     n = V.rule_barrier(ctx, 'R17.2', V.TOPN, 'topn')
     n += V.rule_barrier(ctx, 'R17.2', V.BEST, 'bestfit')
     ctx.floor('R17.2', n, 2)
+    ctx.rule('R17.8', 'the running maximum is fed by distances that exist in the stream (no sentinel for a missing distance)')
+    n = V.rule_running_max_source(ctx, 'R17.8', V.TOPN, 'topn')
+    n += V.rule_running_max_source(ctx, 'R17.8', V.BEST, 'bestfit')
+    ctx.evaluated('R17.8', n, 2)
+    from props import C12
+    ctx.rule('R17.7', 'composition of the engines in VisualVoting: a track won by appearance is the track taken out of the '
+                      'Hungarian stage (no track twice across the two stages)')
+    ctx.floor('R17.7', C12.cascade(ctx, 'R17.7'), 5)
     ctx.rule('R17.3', 'top-N: sort by decreasing weight dominates truncate(topn)')
     ctx.floor('R17.3', V.rule_topn_order(ctx, 'R17.3'), 2)
     ctx.rule('R17.4', 'best-fit: sort by decreasing weight dominates the claim loop; taken-set holds contested tracks')
